@@ -204,6 +204,10 @@ def main(argv=None):
         print("VIOLATION property=%s replay=%s" % (prop, path), flush=True)
         reported.append(path)
         rc = 1
+    for v in new[3:]:
+        # further signatures of the same batch: kept un-minimised for triage
+        if v.get("replay") is not None:
+            print("also: %s -> %s" % (v.get("signature"), save_replay(prop, seed, v["replay"], ".also")))
     if agg.harness_error_count and rc == 0:
         for h in agg.harness_errors[:3]:
             print("HARNESS-ERROR run=%s %s: %s" % (h.get("run"), h.get("verdict"), (h.get("detail") or "")[-800:]))
